@@ -414,7 +414,12 @@ def step (st : State) : Ev → Option (State × Out)
   | .uncancel =>
     match st.running with
     | none => none
-    | some t => some (taskUncancel st t 1, .none)
+    | some t =>
+      -- API discipline: `uncancel()` is called by the party that called `cancel()`, i.e. user code
+      -- only takes back native requests
+      if (st.tasks t).nUserUncancel ≥ (st.tasks t).nNative then none else
+      some ((taskUncancel st t 1).setTask t
+        (fun x => { x with nUserUncancel := x.nUserUncancel + 1 }), .none)
   | .mkGroup =>
     let (st, s) := newScope st false none
     let g := st.nGroups
